@@ -1,5 +1,7 @@
 """Single source for MANIFEST.json (tools/mkmanifest.py)."""
 ENGINES = [
+    {"name": "grammar", "path": "vf/engine/grammar.py", "serves_properties": ["C19"],
+     "kind_free_text": "enumerator of all derivations of a weighted attribute grammar up to size bounds (exact count/unrank, smallest first); programs run through the real BDParser / SB21Helper / load_from_config and compared with the independent semantics vf/ref/bd_sem.py"},
     {"name": "product-keys", "path": "vf/props/c08.py", "serves_properties": ["C08"],
      "kind_free_text": "full product over the 29-key fixture pool x serialisation x password x entry point; sign/verify product incl. exhaustive single-bit flips; all (len r, msb r, len s, msb s) ECDSA shape classes; independent references vf/ref/ecdsa.py, rsa.py, der.py"},
     {"name": "lattice+sequences-sb2", "path": "vf/props/c04.py", "serves_properties": ["C04"],
@@ -20,6 +22,12 @@ ENGINES = [
 FIX_COMMITS = ["e173e89", "69c9427", "3f819f3", "2ac9b91", "83ab516", "2982182", "b4341d3", "f68c828", "1e56e39", "8e8a574", "2622fd6", "9334850", "fd62f71", "1ea4c23", "c7c34d4", "dd26e59", "6b2a920", "698b0bb", "7a9bdd4", "d847120"]
 NOT_APPLICABLE = {}
 CHECKS = {
+    "C19": {
+        "engine": "grammar", "level": "exploration", "design_ref": "DESIGN.md §20",
+        "technique": "bounded exhaustive enumeration of programs: all derivations of the BD grammar up to a size bound (arithmetic trees <= 4/5 operator nodes, boolean trees <= 3/4, all block orders with multiplicity <= 2, statement forms x operand sets, 1..3 sections x 0..3 statements), each compiled by the real parser/helper and compared with an independent denotational semantics",
+        "text": "Every program the grammar derives within the bounds (686 k quick / 8.5 M thorough) is parsed by the real BDParser and, for the statement layer, turned into command objects by the real helper / BootImageV21.load_from_config; expression values, the parser dictionary and the 16-byte command headers and payloads must equal what vf/ref/bd_sem.py (own lexer, C precedence, exact integers; command model calibrated on elftosb-made golden files) prescribes; unsupported constructs must be refused with SPSDKError; a reused parser must not leak state.",
+        "note": "Trusted: vf/ref/bd_sem.py and the grammar transcription from docs/usage/elf2sb.md; conventions that differ between C and Python (negative operands of / % << >>, division by zero) are excluded and counted; deeper trees and other literals are outside.",
+    },
     "C08": {
         "engine": "product-keys", "level": "exploration", "design_ref": "DESIGN.md §9",
         "technique": "bounded exhaustive enumeration: full product key pool x encoding x password x entry point, sign/verify parameter product with all single-bit flips of short messages and of ECC signatures, and all 30473 (len r, msb r, len s, msb s) shape classes per curve, executed on the real classes and CLIs and compared with independent pure-Python ECDSA/RSA/DER references",
